@@ -237,6 +237,11 @@ def continue_after(ck, ctx):
         # the value expanded is the one get_var returned; same result buffer
         v = strip(R.arg(bb, 0))
         ck.ob("continue-after", "recursion-value", any(c[1] == "eval::Env::get_var" for c in calls_in(v)) and strip(R.arg(bb, 1))[0] == "param", "the recursion expands the value returned by get_var into the same result", span=t["loc"], fn=b.nname)
+    # the environments are tried front to back, all of them: the iterator is exactly envs.iter().enumerate() (no rev/skip/take/..)
+    for bb, t in gv:
+        envx0 = R.arg(bb, 0)
+        chain = [c[1].split("::")[-1] for c in calls_in(envx0) if "Iterator" in c[1] or c[1].startswith(("core::slice::", "std::iter::", "std::slice::"))]
+        ck.ob("continue-after", "envs-front-to-back", sorted(chain) == sorted(["next", "enumerate", "iter"]) or sorted(chain) == sorted(["next", "enumerate", "iter", "into_iter"]), "environments are consulted in order, every one of them: iterator chain %s" % chain, span=t["loc"], fn=b.nname)
     for bb, t in gv:
         # env asked is the enumerate item's .1, name is the VarRef payload
         envx = strip(R.arg(bb, 0))
